@@ -569,7 +569,7 @@ class Path(PathDeprecations):
             else:
                 if cwd is None:
                     cwd = os.getcwd()
-                abs_path = abs_path if is_absolute else os.path.join(cwd, abs_path)
+                abs_path = abs_path if is_absolute else os.path.join(os.getcwd(), cwd, abs_path)
                 url_data = None
         else:
             raise PathError("Expected path to be a string, os.PathLike or a Path object.")
